@@ -432,7 +432,15 @@ func check(c *pbt.Ctx, cs Case) {
 					if d == nil {
 						d = comp.Root // irrelevant: the path cannot be resolved by the typed API either
 					}
-					exist, oerr = cur.v.SetByPath(generic.NewValue(d, newEnc), sp...)
+					nv := generic.NewValue(d, newEnc)
+					if d.Type() != thrift.Type(op.New.K) {
+						// the histories of generator and value can diverge (an insert may land anywhere in
+						// its container), so the declared type at the path need not be the new value's type:
+						// NewValue(d, ...) would then label the bytes with the wrong type, which is a caller
+						// error and not a type change the value could refuse
+						nv = generic.Value{Node: generic.NewNode(thrift.Type(op.New.K), newEnc)}
+					}
+					exist, oerr = cur.v.SetByPath(nv, sp...)
 				} else {
 					exist, oerr = cur.n.SetByPath(generic.NewNode(thrift.Type(op.New.K), newEnc), sp...)
 				}
